@@ -136,16 +136,17 @@ def check_iv_lengths(enc):
 def plan(tier):
     q = tier == "quick"
     T = 300 if q else 1500
-    names = ["compact_dir", "compact_kw", "compact_gcmkw", "compact_rsa", "compact_ecdh", "compact_ecdhkw", "compact_pbes2", "compact_1pu"]
+    names = ["compact_dir", "compact_kw", "compact_gcmkw", "compact_rsa", "compact_ecdh", "compact_ecdhkw", "compact_pbes2", "compact_1pu", "compact_chacha"]
     notes = {"compact_dir": "dir: every IV/tag length class, encrypted key present, zip, AEAD verdict",
              "compact_kw": "A128KW: unwrap verdict x recovered CEK length x AEAD verdict x zip",
              "compact_gcmkw": "A128GCMKW: header iv/tag operands", "compact_rsa": "RSA-OAEP: padding object, decrypt verdict",
              "compact_ecdh": "ECDH-ES direct (EC and OKP): epk invalid / other curve, non-empty encrypted key, KDF other-info",
              "compact_1pu": "ECDH-1PU direct and +A128KW (draft, registered explicitly): Z = Ze || Zs with the sender's key, tag in the KDF input, "
                             "sender key absent / on another curve, key wrapping mode only with CBC-HMAC",
+             "compact_chacha": "draft content encryptions C20P / XC20P (direct and A128KW): nonce 96 / 192 bit, 128-bit tag, every IV/tag length class, zip",
              "compact_ecdhkw": "ECDH-ES+A128KW", "compact_pbes2": "PBES2-HS256+A128KW: salt, count, hash, wrap key"}
     conds = [Cond(H, n, "main", T, notes[n]) for n in names] + [
-        Cond(H, "compact_witness", "witness", 120), Cond(H, "compact_reject_witness", "witness", 120), Cond(H, "compact_1pu_witness", "witness", 120),
+        Cond(H, "compact_witness", "witness", 120), Cond(H, "compact_reject_witness", "witness", 120), Cond(H, "compact_1pu_witness", "witness", 120), Cond(H, "compact_chacha_witness", "witness", 120),
         Cond(H, "general_json", "main", T * 2, "general JSON, 1..2 A128KW recipients: per-recipient unwrap verdicts, CEK equality/length, AAD member, verify_all_recipients"),
         Cond(H, "general_json_witness", "witness", 300),
         Cond(H, "flattened_json", "main", T, "flattened JSON: alg in protected / shared unprotected / per-recipient header, AAD member"),
@@ -173,7 +174,7 @@ def plan(tier):
                    "content encryptions": "A128GCM, A128CBC-HS256 (E2: CBC-HMAC for |aad| in the listed sizes, |ct| <= 32)",
                    "IV / tag / CEK length classes": "exact, shorter, longer, empty", "recipients": "1..2", "serializations": "compact, flattened, general"},
         "outside": ["AEAD / unwrap / RSA soundness and pyca's point validation (their verdicts and exceptions are modelled, not their decisions)",
-                    "other key sizes of the same families (A192*, A256*), ECDH-1PU in the JSON serializations, ChaCha20 content encryption (draft)",
+                    "other key sizes of the same families (A192*, A256*), ECDH-1PU and the ChaCha20 encs in the JSON serializations",
                     "characters of base64 segments"],
         "stubs": ["Cipher/AES/GCM/CBC/PKCS7, aes_key_wrap/unwrap, PBKDF2HMAC, ConcatKDFHash (argument checks of the real classes reproduced)",
                   "EllipticCurvePublicNumbers / OKP from_public_bytes (valid point or ValueError)", "zlib (ideal codec)", "hmac", "opaque base64/json"],
